@@ -14,6 +14,9 @@ OPS = ["+", "-", ":", "*", "/"]
 EFFECTS = ["x", "1", "0 + x", "x + 0", "x - 1", "1 + x", "x + 1", "x + z", "0 + x + z", "-1 + x", "x - 1 + z",
            "x:z", "x*z", "x/z", "f(x) + z", "x + z - 1", "x + z + 0", "1 + x - 1", "1 - 1 + x", "x*z - 1"]
 GROUPS = ["g", "g + h", "g/h", "g:h", "g*h"]
+# call atoms that differ only by precedence-changing parentheses: one printed name, two factors
+TWINS = [("I((x+z)*w)", "I(x+z*w)"), ("f(x-(z-w))", "f(x-z-w)"), ("f(-(x+z))", "f(-x+z)"), ("f(x, k=(z+1)*2)", "f(x, k=z+1*2)"),
+         ("f((x))", "f(x)"), ("f( x ,2)", "f(x, 2)")]            # the last two ARE one atom (textual variants)
 
 
 def trees(n, atoms):
@@ -44,6 +47,10 @@ def formulas(tier, rng):
     for e in EFFECTS:
         for g in GROUPS:
             out += [f"({e}|{g})", f"a + ({e}|{g})", f"({e}|{g}) + b", f"a*b + ({e}|{g}) - a"]
+    for A, B in TWINS:
+        for p, q in ((A, B), (B, A)):
+            out += [f"{p} {op} {q}" for op in OPS] + [f"({p} + {q})**2", f"({p}|g) + ({q}|g)", f"({p} + {q}|g)", f"(1|{p}) + (1|{q})",
+                                                      f"a:{p} + a:{q}", f"{p} + a - {q}", f"({p} + a) * ({q} + b)"]
     pick = base if tier == "thorough" else rng.sample(base, min(len(base), 1500))
     for f in pick:
         out += [f"y ~ {f}", f"y ~ 0 + {f}", f"{f} - 1", f"y ~ {f} + 1", f"f(y) ~ 1 + {f}", f"y ~ {f} + 0"]
@@ -139,7 +146,7 @@ def equal_model_product(tree):
 
 
 def _chunk(forms):
-    from ..rtc.algebra import expand, observed, OutOfLanguage
+    from ..rtc.algebra import expand, observed, OutOfLanguage, expand_counts, observed_counts
     from formulae.scanner import Scanner
     from formulae.parser import Parser
     from formulae import model_description
@@ -159,7 +166,8 @@ def _chunk(forms):
         if len(spec[1]) + len(spec[2]) >= 3:
             nontriv += 1
         try:
-            obs = observed(model_description(f))
+            md = model_description(f)
+            obs = observed(md)
         except Exception as ex:
             bad.append((f, f"model_description raised {type(ex).__name__}: {ex}", str(spec), None))
             continue
@@ -173,6 +181,11 @@ def _chunk(forms):
                 known2 += 1
                 continue
             bad.append((f, "expansion differs from the set-semantics specification", str(spec), str(obs)))
+            continue
+        sc, oc = expand_counts(tree), observed_counts(md)
+        if sc != oc:
+            bad.append((f, "number of terms per name differs from the specification (distinct factors merged or one factor kept twice)",
+                        str(tuple(dict(c) for c in sc)), str(tuple(dict(c) for c in oc))))
     return evals, nontriv, bad[:20], known, known2
 
 
@@ -182,7 +195,9 @@ def PROOFS():
     return [("vf.contracts.terms_c", [T + "Term.__init__", T + "Term.__eq__", T + "Model.__init__", T + "Model.add_term", T + "Model.terms",
                                       T + "Model.__add__", T + "Model.__sub__", T + "Model.__add__#model", T + "Model.__sub__#model"]),
             ("vf.contracts.call_resolver_c", [R + c for c in ("LazyValue.__eq__", "LazyCall.__eq__", "LazyOperator.__eq__", "LazyVariable.__eq__",
-                                                              "LazyValue.__hash__", "LazyVariable.__hash__")])]
+                                                              "LazyValue.__hash__", "LazyVariable.__hash__")]),
+            ("vf.contracts.variable_c", ["formulae.terms.call.Call.__eq__", "formulae.terms.call.Call.__hash__",
+                                         "formulae.terms.variable.Variable.__eq__", "formulae.terms.variable.Variable.__hash__"])]
 
 
 def run(report, findings):
